@@ -413,7 +413,7 @@ def run_case(case, rec, mon=None):
             if j % 3 == 0 and y is not None:
                 # the same object on a tensor with one more (leading) dimension: a negative axis means the same axis from the end, and the
                 # documented public attributes read what they were set to
-                before_attrs = (s.num_vectors, s.time_axis)
+                before_attrs = (n, time_axis)  # what the object was given (by its constructor or by assignment)
                 x5 = np.array(np.broadcast_to(np.asarray(x), (2,) + tuple(shape)))
                 x5.setflags(write=False)
                 ta, ax = time_axis, axis
